@@ -111,12 +111,14 @@ func vfCatch(f func()) (panicked bool, msg string) {
 // object is counted. Natively a deep snapshot is taken instead and
 // vfFrozenWrites reports whether any root differs from its snapshot.
 var vfFrozenRoots, vfFrozenSnaps []interface{}
+var vfFrozenIdents [][]uintptr
 
 func vfFreeze(roots ...interface{}) {
-	vfFrozenRoots, vfFrozenSnaps = nil, nil
+	vfFrozenRoots, vfFrozenSnaps, vfFrozenIdents = nil, nil, nil
 	for _, r := range roots {
 		vfFrozenRoots = append(vfFrozenRoots, r)
 		vfFrozenSnaps = append(vfFrozenSnaps, vfDeepCopy(r))
+		vfFrozenIdents = append(vfFrozenIdents, vfIdentTrace(r))
 	}
 }
 
@@ -125,10 +127,78 @@ func vfFrozenWrites() int {
 	for i := range vfFrozenRoots {
 		if !vfDeepEqual(vfFrozenRoots[i], vfFrozenSnaps[i]) {
 			n++
+			continue
+		}
+		// same structure: a node replaced by an equal copy is a write as well
+		a, b := vfIdentTrace(vfFrozenRoots[i]), vfFrozenIdents[i]
+		same := len(a) == len(b)
+		for k := 0; same && k < len(a); k++ {
+			same = a[k] == b[k]
+		}
+		if !same {
+			n++
 		}
 	}
-	vfFrozenRoots, vfFrozenSnaps = nil, nil
+	vfFrozenRoots, vfFrozenSnaps, vfFrozenIdents = nil, nil, nil
 	return n
+}
+
+// vfIdentTrace lists, in traversal order, the addresses of every pointer, slice
+// and map reachable from v: two traces differ when a node was replaced, even by
+// a structurally equal one.
+func vfIdentTrace(v interface{}) []uintptr {
+	var out []uintptr
+	seen := map[uintptr]bool{}
+	var walk func(v reflect.Value)
+	walk = func(v reflect.Value) {
+		switch v.Kind() {
+		case reflect.Interface:
+			if !v.IsNil() {
+				walk(v.Elem())
+			}
+		case reflect.Ptr:
+			if v.IsNil() {
+				out = append(out, 0)
+				return
+			}
+			out = append(out, v.Pointer())
+			switch v.Type() {
+			case reflect.TypeOf((*regexp.Regexp)(nil)), reflect.TypeOf((*time.Location)(nil)):
+				return
+			}
+			if seen[v.Pointer()] {
+				return
+			}
+			seen[v.Pointer()] = true
+			walk(v.Elem())
+		case reflect.Struct:
+			if v.Type() == reflect.TypeOf(time.Time{}) {
+				return
+			}
+			for i := 0; i < v.NumField(); i++ {
+				walk(v.Field(i))
+			}
+		case reflect.Slice:
+			if v.IsNil() {
+				out = append(out, 0)
+				return
+			}
+			out = append(out, v.Pointer(), uintptr(v.Len()))
+			for i := 0; i < v.Len(); i++ {
+				walk(v.Index(i))
+			}
+		case reflect.Array:
+			for i := 0; i < v.Len(); i++ {
+				walk(v.Index(i))
+			}
+		case reflect.Map:
+			out = append(out, v.Pointer(), uintptr(v.Len()))
+		}
+	}
+	if v != nil {
+		walk(reflect.ValueOf(v))
+	}
+	return out
 }
 
 // vfDeepCopy copies a value structurally, unexported fields included.
